@@ -32,6 +32,7 @@ PROP = {
         {"name": "shell_nested", "quick": 300000, "thorough": 3000000, "maxlen": 64},
         {"name": "creader", "quick": 600000, "thorough": 6000000, "maxlen": 160},
         {"name": "path", "quick": 1200000, "thorough": 12000000, "maxlen": 96},
+        {"name": "path_long", "quick": 200000, "thorough": 2000000, "maxlen": 96},
         {"name": "text_long", "quick": 600000, "thorough": 6000000, "maxlen": 256},
     ],
     "uchar": ["split", "trim", "argvc", "cmdargs", "shell", "memmem", "replace"],
